@@ -139,7 +139,10 @@ def dump_fn(f, out=sys.stdout, body=None):
 class Facts:
     def __init__(self, path):
         with open(path) as fh:
-            d = json.load(fh)
+            text = fh.read()
+        import aliases
+        text, self.aliases = aliases.canonicalize(text)   # renamed private functions -> the names the rules use
+        d = json.loads(text)
         self.raw = d
         self.nonce = d.get("nonce")
         self.fns = {f["path"]: f for f in d["fns"]}
